@@ -25,7 +25,7 @@ class Gen:
     """Structured, mostly-valid histories; collision-heavy id pools; every choice from one PRNG."""
 
     def __init__(self, rnd, weights=None, npeers=3, idpool=(1, 2, 3), maxlen=30, p_fail=0.15, big_seids=True,
-                 txseq0_choices=(0, 5, 2**24 - 2, 2**24 - 1), maxretrans_choices=(0, 1, 2, 3), p_panic=0.0, p_alias=0.0):
+                 txseq0_choices=(0, 5, 2**24 - 2, 2**24 - 1), maxretrans_choices=(0, 1, 2, 3), p_panic=0.0, p_alias=0.0, p_wfail=0.0):
         self.r = rnd
         self.w = dict(asr=6, est=14, mod=22, dele=8, hb=3, dup=8, usa=8, dld=5, timeout=8, srr=6, otherreq=2, otherrsp=2)
         if weights:
@@ -33,6 +33,7 @@ class Gen:
         self.npeers, self.idpool, self.maxlen, self.p_fail = npeers, list(idpool), maxlen, p_fail
         self.big_seids = big_seids
         self.txseq0_choices, self.maxretrans_choices = txseq0_choices, maxretrans_choices
+        self.p_wfail = p_wfail      # share of single-item reports served while every write on the PFCP socket fails
         self.p_alias = p_alias      # share of requests sent from the alias socket of a peer (same IP address, port 9805)
         self.p_panic = p_panic      # share of est/mod requests during which one driver call panics (contained: fix 242a7e8)
 
@@ -208,6 +209,8 @@ class Gen:
             elif k == "usa":
                 ev = {"t": "report", "seid": seid(),
                       "items": [{"usa": self.rpt(r.choice(self.idpool))} for _ in range(r.choice([1, 1, 2, 3]))]}
+                if self.p_wfail and len(ev["items"]) == 1 and r.random() < self.p_wfail:
+                    ev["wfail"] = True
                 evs.append(ev)
                 note_requests(ev["seid"], ev["items"])
                 nreq += 1
@@ -219,6 +222,8 @@ class Gen:
                 if r.random() < 0.15:
                     items.append({"usa": self.rpt(r.choice(self.idpool))})
                 evs.append({"t": "report", "seid": seid(), "items": items})
+                if self.p_wfail and len(items) == 1 and r.random() < self.p_wfail:
+                    evs[-1]["wfail"] = True
                 note_requests(evs[-1]["seid"], items)
                 nreq += len(items)
             elif k == "timeout":
@@ -548,7 +553,10 @@ def c_event(ev, reset_order, obs=None):
                 items.append("(RDld %d %d %s)" % (d["pdr"], d["action"], common.cbytes_hex(d["pkt"])))
             else:
                 items.append("(RUsa %s)" % c_rpt(it["usa"]))
-        return "(EvReport %d %s %s)" % (ev["seid"], clist(items), c_env(ev))
+        # a report served while the socket's writes fail (harness hook): the model's event is EvReportWF - unless a datagram
+        # left all the same (the loop outran the harness's grace period: the write evidently succeeded, an ordinary report)
+        wf = ev.get("wfail") and len(ev["items"]) == 1 and obs is not None and not (obs.get("sends") or [])
+        return "(%s %d %s %s)" % ("EvReportWF" if wf else "EvReport", ev["seid"], clist(items), c_env(ev))
     if ev["t"] == "timeout":
         return "(%s %d %d)" % ("EvTimeoutTx" if ev["tx"] else "EvTimeoutRx", ev["peer"], ev["seq"])
     raise ValueError(ev["t"])
@@ -762,6 +770,10 @@ def distribution(cases):
         for e in c["events"]:
             k = e["t"] if e["t"] != "recv" else e["msg"]["k"]
             d[k] = d.get(k, 0) + 1
+            if e.get("wfail"):
+                d["report_with_failing_write"] = d.get("report_with_failing_write", 0) + 1
+            if e.get("peer", 0) >= 4 and e["t"] == "recv":
+                d["recv_from_alias_socket"] = d.get("recv_from_alias_socket", 0) + 1
     d["histories"] = len(cases)
     d["events"] = sum(len(c["events"]) for c in cases)
     return d
